@@ -291,6 +291,9 @@ def judge(chk: Check, cases: T.List[T.Dict[str, T.Any]], words: T.List[T.Dict[st
         if sig in seen:
             continue
         seen.add(sig)
+        if len(seen) > 40:      # the first 20 are reported anyway (Check.max_reported)
+            chk.suppressed += 1
+            continue
         common.use_repo_meson()
         ver = execute({'cl': c['cl'], 'ops': c['ops'], 'vseed': c['vseed']}, words, verbose=True)
         text = ver['text']
